@@ -263,6 +263,17 @@ RULES = {
 }
 
 
+def _abbrev(x, limit=40):
+    """samples are for reading: very long value lists (1000-element vectors, 5000-row CSVs) are shortened"""
+    if isinstance(x, list):
+        if len(x) > limit:
+            return [_abbrev(y, limit) for y in x[:10]] + ["... (%d more)" % (len(x) - 10)]
+        return [_abbrev(y, limit) for y in x]
+    if isinstance(x, dict):
+        return {k: _abbrev(v, limit) for k, v in x.items()}
+    return x
+
+
 def write_evidence(prop, spec, tier, seed, agg, wall, wall_runs, resample, known_seen, n_unknown, sweep=None):
     sweep = sweep or {}
     st = {k: dict(v) for k, v in agg.stats.items()}
@@ -270,7 +281,7 @@ def write_evidence(prop, spec, tier, seed, agg, wall, wall_runs, resample, known
         "evaluations": agg.steps if spec["engine"] == "c08" else agg.runs,
         "distinct_nontrivial": len(agg.states),
         "rule": spec.get("rule") or RULES.get(spec["engine"], RULES["history"]),
-        "samples": agg.samples[:3] or [{"note": "no violation-free sample kept"}],
+        "samples": _abbrev(agg.samples[:3]) or [{"note": "no violation-free sample kept"}],
         "runs_per_hour": round(agg.runs / max(wall_runs, 1e-9) * 3600),
         "seeds": {"verif_seed": seed, "first_run_index": 0, "count": agg.runs},
         "scenarios": agg.runs,
